@@ -32,12 +32,17 @@ def _enc(text):
     if VARIANT[0] == "numeric-refs":
         # every non-alphanumeric character as a numeric character reference
         return "".join(c if (c.isalnum() and ord(c) < 128) else "&#%d;" % ord(c) for c in text)
-    return escape(text)
+    return _esc(text)
+
+
+def _esc(text):
+    # a literal carriage return would be normalised to a line feed by every XML parser
+    return escape(text).replace("\r", "&#13;")
 
 
 def _el(tag, text, ind):
     if VARIANT[0] == "padded" and text != "":
-        return "%s<%s>\n%s    %s\n%s</%s>\n" % (ind, tag, ind, escape(text), ind, tag)
+        return "%s<%s>\n%s    %s\n%s</%s>\n" % (ind, tag, ind, _esc(text), ind, tag)
     return "%s<%s>%s</%s>\n" % (ind, tag, _enc(text), tag)
 
 
